@@ -363,6 +363,12 @@ func c05LoadRaises(p *Prog, r *Report) {
 		env := &Env{P: p, Pkg: fi.Pkg, Vars: map[types.Object]*Val{arg: intVal(cs[0])}}
 		env.MapOk = func(_ *Env, _ *ast.IndexExpr) (*Val, bool, bool) { return nil, false, true }
 		env.Hook = func(env *Env, e ast.Expr) (*Val, bool) {
+			// the record of the iteration: the loop value, or records[i] when the loop goes over kept positions
+			if ix, ok := e.(*ast.IndexExpr); ok && env.Pkg == fi.Pkg && fileObj != nil && objOf(info, ix.Index) == fileObj {
+				if bt, isB := fileObj.Type().Underlying().(*types.Basic); isB && bt.Info()&types.IsInteger != 0 {
+					return &Val{Fields: map[string]*Val{"Seq": intVal(cs[1]), "Key": strVal("k"), "TxId": strVal(mainId)}}, true
+				}
+			}
 			if id, ok := e.(*ast.Ident); ok && env.Pkg == fi.Pkg && objOf(info, id) == fileObj {
 				return &Val{Fields: map[string]*Val{"Seq": intVal(cs[1]), "Key": strVal("k"), "TxId": strVal(mainId)}}, true
 			}
